@@ -552,7 +552,7 @@ func genStream(c *h.Ctx) {
 	for _, x := range ds {
 		c.Add("tostr "+x2(x), "tostr:structured")
 	}
-	for i := 0; i < c.N(12000, 400000); i++ {
+	for i := 0; i < c.N(12000, 800000); i++ {
 		c.Add("tostr "+x2(randDouble(r, ds)), "tostr:random")
 	}
 	pick := func() float64 {
@@ -562,18 +562,18 @@ func genStream(c *h.Ctx) {
 		return randDouble(r, ds)
 	}
 	// toFixed: all digit counts 0..20 plus the fringe
-	for i := 0; i < c.N(14000, 500000); i++ {
+	for i := 0; i < c.N(14000, 1000000); i++ {
 		c.Add("fixed "+x2(pick())+" "+digitArgs[r.Intn(len(digitArgs))], "fixed")
 	}
-	for i := 0; i < c.N(9000, 400000); i++ {
+	for i := 0; i < c.N(9000, 700000); i++ {
 		x := pick()
 		c.Add("exp "+h.F64Hex(x)+" "+digitArgs[r.Intn(len(digitArgs))], "exp")
 	}
-	for i := 0; i < c.N(9000, 400000); i++ {
+	for i := 0; i < c.N(9000, 700000); i++ {
 		c.Add("prec "+x2(pick())+" "+digitArgs[r.Intn(len(digitArgs))], "prec")
 	}
 	// radix: integers (the property's quantifier), some non-integers with power-of-two radix
-	for i := 0; i < c.N(9000, 400000); i++ {
+	for i := 0; i < c.N(9000, 700000); i++ {
 		var x float64
 		switch r.Intn(6) {
 		case 0:
@@ -613,10 +613,10 @@ func genStream(c *h.Ctx) {
 		c.Add("pfloat "+h.BytesTok(s), "pfloat:fixed")
 		c.Add("pint "+h.BytesTok(s)+" u", "pint:fixed")
 	}
-	for i := 0; i < c.N(16000, 700000); i++ {
+	for i := 0; i < c.N(16000, 1200000); i++ {
 		c.Add("num "+h.BytesTok(genStringNum(r, ds)), "num")
 	}
-	for i := 0; i < c.N(12000, 500000); i++ {
+	for i := 0; i < c.N(12000, 800000); i++ {
 		s := genStringNum(r, ds)
 		if r.Intn(3) == 0 {
 			s += []string{"x", "abc", " 1", ".", "e", "e+", "_", "Infinity", "inf", "p1", "\u00e9"}[r.Intn(11)]
@@ -627,7 +627,7 @@ func genStream(c *h.Ctx) {
 	for _, s := range litFixed {
 		c.Add("lit "+h.BytesTok(s), "lit:fixed")
 	}
-	for i := 0; i < c.N(9000, 400000); i++ {
+	for i := 0; i < c.N(9000, 700000); i++ {
 		c.Add("lit "+h.BytesTok(genLiteral(r, ds)), "lit")
 	}
 	// ToString of integer-kinded number Values
@@ -642,7 +642,7 @@ func genStream(c *h.Ctx) {
 	for _, x := range ds {
 		c.Add("rt "+x2(x), "rt:structured")
 	}
-	for i := 0; i < c.N(6000, 150000); i++ {
+	for i := 0; i < c.N(6000, 300000); i++ {
 		c.Add("rt "+x2(randDouble(r, ds)), "rt:random")
 	}
 	for _, s := range parseIntFixed {
@@ -650,7 +650,7 @@ func genStream(c *h.Ctx) {
 			c.Add("pint "+h.BytesTok(s)+" "+a, "pint:fixed")
 		}
 	}
-	for i := 0; i < c.N(14000, 600000); i++ {
+	for i := 0; i < c.N(14000, 1000000); i++ {
 		a := radixArgs[r.Intn(len(radixArgs))]
 		radix := 0
 		if a != "u" {
